@@ -76,6 +76,24 @@ func c12Scenarios(c *core.Ctx) []namedScenario {
 		}
 		wo.Seal(r)
 		out = append(out, namedScenario{"platform OutOfDate", wo, nil})
+		// inconsistent chains: the PCK leaf is issued by one CA, the quote ships the other CA's
+		// certificate as intermediate (rejected either way; the CRL request must still name the
+		// CA that issued the leaf)
+		for _, leafProc := range []bool{true, false} {
+			ext := world.RandomSGXExt(r)
+			pl, err1 := world.NewPKI(r, world.PKIOpts{Now: baseTime, Ext: ext, Processor: leafProc})
+			po, err2 := world.NewPKI(r, world.PKIOpts{Now: baseTime, Ext: ext, Processor: !leafProc})
+			if err1 != nil || err2 != nil {
+				panic("pki")
+			}
+			f := world.DefaultQuoteFields(r)
+			f.ChainPEM = append(append(append([]byte{}, pl.Leaf.PEM()...), po.Inter.PEM()...), pl.Root.PEM()...)
+			wi, err := world.BuildWorld(r, baseTime, pl, f)
+			if err != nil {
+				panic(err)
+			}
+			out = append(out, namedScenario{fmt.Sprintf("leaf issued by the %s CA, the other CA's certificate shipped as intermediate", pl.CA()), wi, nil})
+		}
 		// the quote embeds a root certificate that has expired; the trusted pool holds a re-issue of it
 		// (same key and name, later NotAfter), so path building succeeds and only the library's own
 		// expiry check of the embedded chain can reject
@@ -107,7 +125,7 @@ func c12Scenarios(c *core.Ctx) []namedScenario {
 }
 
 func C12(c *core.Ctx) {
-	c.Rule = "every generated world (honest and with one injected fault: mutated quote, foreign root, each endpoint down / garbage, broken collateral signature, revoked leaf, expired, OutOfDate platform, Processor-CA chain, an expired embedded root whose re-issue is trusted) under all four option combinations with a recording getter: verdict monotonicity, no fetch without collateral, CRL endpoints only with revocation, TCB-Info URL names the FMSPC and PCK-CRL URL the issuing CA, fetch failures reported as typed errors; histories of 2..5 verifications (different quotes and settings, nil and explicit time sets, certificates expiring between calls) through one shared options value compared with fresh options. non-trivial = every case; distinct = distinct (world, fault, options) / histories"
+	c.Rule = "every generated world (honest and with one injected fault: mutated quote, foreign root, each endpoint down / garbage, broken collateral signature, revoked leaf, expired, OutOfDate platform, Processor-CA chain, an expired embedded root whose re-issue is trusted, a leaf shipped with the other CA's certificate) under all four option combinations with a recording getter: verdict monotonicity, no fetch without collateral, CRL endpoints only with revocation, TCB-Info URL names the FMSPC and PCK-CRL URL the issuing CA, fetch failures reported as typed errors; histories of 2..5 verifications (different quotes and settings, nil and explicit time sets, certificates expiring between calls) through one shared options value compared with fresh options. non-trivial = every case; distinct = distinct (world, fault, options) / histories"
 	scs := c12Scenarios(c)
 	combos := []struct{ col, crl bool }{{false, false}, {true, false}, {true, true}, {false, true}}
 	for _, ns := range scs {
